@@ -16,13 +16,27 @@
     changes nothing (see also C12);
   * every case preserves the invariant (`PutPost.inv`, `GetPost.inv`) and never panics.
 
-  PARTIAL: the statements are about the lower allocator, which every `LLFree::get/put` call
-  reaches after `check` (C08). That the upper-level wrappers (counters in `Trees`/`Locals`)
-  neither panic nor mask a lower result for every reachable state is the upper invariant
-  (`UpperInv`), in progress — until then carried by the sequential correspondence and its
-  ownership oracle.
+  and for the public calls, in every state satisfying the upper invariant `UpperInv0` (which
+  construction establishes and every call preserves — `history_keeps_invariant`):
+
+  * `put_refines` — `LLFree::put` succeeds **iff** the specification allows the free, frees
+    exactly the block (split of a whole huge frame on a partial free), a refused free changes
+    nothing at all;
+  * `get_refines` — `LLFree::get` (every path: own reservation with synchronisation,
+    `search_and_reserve` / `search_best`, `reserve_or_steal`, `steal_global`, stealing and
+    demoting other slots' reservations) returns only blocks that were entirely free, exactly the
+    target if given, allocates exactly them; every failure is `Memory` with the allocation state
+    unchanged; no path panics;
+  * `drain_keeps_allocation`, `change_keeps_allocation`.
+
+  Remaining assumption (carried by the correspondence, see C06): that `free_all` /
+  `reserve_all` / `recover` establish the *lower* invariant for every frame count
+  (`Trees::new` on top of it is proved: `C06.trees_new_establishes`). `CfgOk` is what a
+  configuration has to satisfy: class ids < 8, ordered policy (all policies of the repository),
+  tree size below 2^19 frames (the counter width of a local reservation) — `CfgOk.of_checks`.
 -/
-import LLFreeV.Proofs.LowerGet
+import LLFreeV.Proofs.UpperInit
+import LLFreeV.Proofs.CfgOk
 namespace LLFree.C02
 open LLFree
 
@@ -60,5 +74,63 @@ example : let c : Cfg := ⟨⟨9, 4⟩, 2048, [(0, 1)], 0, fun _ _ _ => .invalid
     let m : Mem := ⟨Array.replicate 32 0#64, Array.replicate 4 512, #[], #[]⟩
     (∀ i, i < 8 → m.allocated c.geom (0 + i) = false) ∧ m.allocated c.geom 0 = false := by
   decide
+
+
+/-! ### The public calls (upper level), every reachable state
+
+  `UpperInv0 c H m`: the upper invariant between calls (`H` = trees with frames hidden by
+  `Offline`). It holds after construction (`C06.trees_new_establishes`) and is preserved by every
+  call (`history_keeps_invariant`), so the per-call theorems apply to every sequential history. -/
+
+/-- **`LLFree::put`**: with valid arguments the free succeeds **iff** the ownership
+    specification allows it; it then frees exactly the frames of the block (splitting a whole
+    huge frame on a partial free), nothing else changes in the allocation state, and the
+    invariant is re-established; a refused free leaves the *entire* memory unchanged. -/
+theorem put_refines (c : Cfg) (ok : CfgOk c) (H : Nat → Prop) (m : Mem) (inv : UpperInv0 c H m) (frame : Nat) (r : Request)
+    (hcls : r.cls < 8) (hloc : r.locOk c) (hv : C08.ArgsValid c frame r) :
+    (PutAllowed c m frame r.order →
+      Runs m (put c frame r) (fun res m' => res = .ok () ∧ UpperInv0 c H m' ∧
+        ∃ m1, PutPost c m m1 frame r.order ∧ SameAlloc m1 m')) ∧
+    (¬ PutAllowed c m frame r.order → Runs m (put c frame r) (fun res m' => res = .error .memory ∧ m = m')) :=
+  upper_put_spec ok inv frame r hcls hloc hv
+
+/-- **`LLFree::get`** (with or without target, every order, slot or no slot): never panics; a
+    success returns an aligned block that was entirely free (exactly the target if one was
+    given) and exactly its frames become allocated; a failure is `Memory` and leaves the
+    allocation status of every frame unchanged; the invariant is re-established. -/
+theorem get_refines (c : Cfg) (ok : CfgOk c) (H : Nat → Prop) (m : Mem) (inv : UpperInv0 c H m) (frame : Option Nat) (r : Request)
+    (hcls : r.cls < 8) (hloc : r.locOk c) (hv : C08.ArgsValid c (frame.getD 0) r) :
+    Runs m (get c frame r) (fun res m' => UpperInv0 c H m' ∧ GetOutcome c m r.order frame res m') :=
+  upper_get_spec ok inv frame r hcls hloc hv
+
+/-- drains and tree changes do not change the allocation status of any frame -/
+theorem drain_keeps_allocation (c : Cfg) (ok : CfgOk c) (H : Nat → Prop) (m : Mem) (inv : UpperInv0 c H m) :
+    Runs m (drain c) (fun _ m' => UpperInv0 c H m' ∧ SameAlloc m m') :=
+  (drain_spec ok inv).mono (fun _ _ h => ⟨h.1, h.2.1⟩)
+
+theorem change_keeps_allocation (c : Cfg) (ok : CfgOk c) (H : Nat → Prop) (m : Mem) (inv : UpperInv0 c H m)
+    (mid mcls : Option Nat) (mfree : Nat) (ccls : Option Nat) (op : Option Tree.Op) (hccls : ∀ k, ccls = some k → k < 8) :
+    Runs m (changeTree c mid mcls mfree ccls op) (fun _ m' => SameAlloc m m' ∧ ∃ H', UpperInv0 c H' m') :=
+  (changeTree_spec ok inv mid mcls mfree ccls op hccls).mono (fun _ _ h => by
+    obtain ⟨_, H', i, post, _⟩ := h
+    exact ⟨post.same, H', post.inv⟩)
+
+/-- **Every sequential history** of valid-parameter calls from a constructed allocator runs
+    without panic and ends in a state satisfying the invariant (so the theorems above apply to
+    every call of every history). -/
+theorem history_keeps_invariant (c : Cfg) (ok : CfgOk c) (calls : List Call) (hvalid : ∀ x ∈ calls, x.valid c)
+    (H : Nat → Prop) (m : Mem) (inv : UpperInv0 c H m) :
+    Runs m (runCalls c calls) (fun _ m' => ∃ H', UpperInv0 c H' m') := calls_safe ok calls hvalid H m inv
+
+/-- Non-vacuity of `CfgOk`: the default geometry with two classes (2 slots each) and the
+    `simple` policy. -/
+example : CfgOk ⟨⟨9, 4⟩, 8192, [(0, 2), (1, 2)], 1, simplePolicy 2048⟩ :=
+  CfgOk.of_checks _ ⟨⟨by decide, ⟨2, rfl⟩⟩, by decide⟩ (by decide) (by decide) (by decide)
+    ⟨_, fun f => by
+      show ∃ q, (if f ≥ 2048 / 2 then Policy.match 1 else if f ≥ 2048 / 64 then Policy.match 255 else Policy.match 0) = Policy.match q
+      split
+      · exact ⟨_, rfl⟩
+      · split <;> exact ⟨_, rfl⟩, rfl⟩
+    (by decide)
 
 end LLFree.C02
